@@ -7,9 +7,9 @@
 EXTENDS ZervModel, Json, IOUtils
 Rec == ndJsonDeserialize(IOEnv.TRACE)
 VARIABLE l
-tvars == <<a, v, ctx, sch, pc, li, k, specs, err, l>>
+tvars == <<a, ra, v, ctx, sch, pc, li, k, specs, err, l>>
 
-Load(args) == /\ a' = args /\ v' = args.src.v /\ ctx' = args.src.ctx /\ sch' = args.src.sch
+Load(args) == /\ a' = args /\ ra' = [ov |-> args.ov, bp |-> args.bp] /\ v' = args.src.v /\ ctx' = args.src.ctx /\ sch' = args.src.sch
               /\ pc' = "validate" /\ li' = 0 /\ k' = 0 /\ specs' = <<>> /\ err' = FALSE
 TraceInit == l = 1 /\ InitWith(Rec[1].a)
 
@@ -23,7 +23,7 @@ Judge == /\ Done /\ l <= Len(Rec)
          /\ l' = l + 1
          /\ IF l + 1 <= Len(Rec) THEN Load(Rec[l + 1].a)
             ELSE /\ PrintT("CONSUMED " \o ToString(l))
-                 /\ UNCHANGED <<a, v, ctx, sch, pc, li, k, specs, err>>
+                 /\ UNCHANGED <<a, ra, v, ctx, sch, pc, li, k, specs, err>>
 TraceNext == Step \/ Judge
 Spec == TraceInit /\ [][TraceNext]_tvars
 \* the driver requires the CONSUMED line: every event was judged
